@@ -140,7 +140,10 @@ def finding_for(prop, v, findings):
     for f in findings:
         if f.get("status") != "open" or f["property"] != prop:
             continue
-        if f["clause"] == v["clause"] and fnmatch.fnmatchcase(v["disc"], f["disc"]):
+        disc = v["disc"]
+        if disc.endswith(",debug-logging"):
+            disc = disc[: -len(",debug-logging")]  # the same finding seen in a shard repeated with debug logging
+        if f["clause"] == v["clause"] and fnmatch.fnmatchcase(disc, f["disc"]):
             return f
     return None
 
